@@ -32,7 +32,7 @@ CHECKS = {
              'must be a listed finding. Correspondence: the Lean DBML renderer produces the same text and the Lean parser model '
              'reads it back to the same content. Theorems flags_refs_roundtrip_partial (any number of tables whose columns carry settings, a note and '
              'properties, followed by any number of different standalone references: same database back), flags_table_roundtrip_partial (one table whose columns carry any subset of pk / increment / '
-             'unique / not null, possibly a one-line note and - option on - any number of properties; an instance of form_roundtrip, which '
+             'unique / not null, possibly an integer default, a one-line note and - option on - any number of properties; an instance of form_roundtrip, which '
              'carries any column form that is read back through table rule, document, build and renderer), refs_roundtrip_partial (plain tables followed by any number of different '
              'standalone references, resolved by name back to the positions they were written from - the hypotheses on names are exactly the '
              'recorded findings), tables_roundtrip_partial (any positive number of tables with different '
